@@ -403,3 +403,126 @@ def handlers_enclosing(node: ast.AST) -> List[List[str]]:
             out.append(names)
         cur, p = p, parent(p)
     return out
+
+
+# ---------------------------------------------------------------------------
+# Mutation of caller-owned parameters (flow-sensitive on block structure)
+# ---------------------------------------------------------------------------
+
+MUTATING_METHODS = {"append", "extend", "insert", "remove", "pop", "clear", "update", "sort", "reverse", "setdefault",
+                    "popitem", "add", "discard", "fill", "resize", "put", "itemset"}
+FRESH_CALLS = {"dict", "list", "set", "tuple", "array", "deepcopy", "copy", "sorted", "OrderedDict", "flip", "asarray",
+               "zeros", "ones", "full", "_cast_to_floating_array", "_cast_to_complex_array"}
+
+
+def _is_fresh_value(v: ast.AST, name: str) -> bool:
+    if isinstance(v, (ast.Dict, ast.List, ast.Set, ast.Tuple, ast.DictComp, ast.ListComp, ast.SetComp, ast.Constant, ast.JoinedStr)):
+        return True
+    if isinstance(v, ast.Call):
+        f = v.func
+        if isinstance(f, ast.Attribute) and f.attr in ("copy", "__copy__", "__deepcopy__", "tolist", "astype"):
+            return True
+        if isinstance(f, ast.Name) and f.id in FRESH_CALLS:
+            return True
+        return False
+    if isinstance(v, ast.BinOp):
+        return True  # arithmetic creates a new object
+    return False
+
+
+@dataclass
+class Mutation:
+    node: ast.AST
+    how: str
+
+
+def param_mutations(fn: ast.FunctionDef, param: str, callee_mutates=None) -> List[Mutation]:
+    """Statements that may mutate the object the caller passed as `param`.
+    callee_mutates(call_node, arg_index_or_kw) -> bool lets the caller plug in
+    inter-procedural knowledge."""
+    out: List[Mutation] = []
+
+    def expr_mutations(e: ast.AST, fresh: bool):
+        if fresh:
+            return
+        for n in walk_ordered(e):
+            if isinstance(n, ast.Call):
+                f = n.func
+                if isinstance(f, ast.Attribute) and isinstance(f.value, ast.Name) and f.value.id == param and f.attr in MUTATING_METHODS:
+                    out.append(Mutation(n, f"{param}.{f.attr}(…)"))
+                if callee_mutates is not None:
+                    for i, a in enumerate(n.args):
+                        if isinstance(a, ast.Name) and a.id == param and callee_mutates(n, i):
+                            out.append(Mutation(n, f"passes {param} to {dotted(f)}, which mutates it"))
+                    for k in n.keywords:
+                        if isinstance(k.value, ast.Name) and k.value.id == param and callee_mutates(n, k.arg):
+                            out.append(Mutation(n, f"passes {param} to {dotted(f)}, which mutates it"))
+
+    def block(stmts: List[ast.stmt], fresh: bool) -> bool:
+        for s in stmts:
+            fresh = stmt(s, fresh)
+        return fresh
+
+    def stmt(s: ast.stmt, fresh: bool) -> bool:
+        if isinstance(s, (ast.Assign, ast.AnnAssign, ast.AugAssign)):
+            targets = s.targets if isinstance(s, ast.Assign) else [s.target]
+            value = s.value
+            if value is not None:
+                expr_mutations(value, fresh)
+            for t in targets:
+                if isinstance(t, ast.Name) and t.id == param and not isinstance(s, ast.AugAssign) and value is not None:
+                    was = fresh
+                    fresh = _is_fresh_value(value, param)
+                    if isinstance(value, ast.Call) and not fresh:
+                        # result of an arbitrary call on the parameter: may alias it (p(dictionary) returning its
+                        # argument) — then it is exactly as fresh as the parameter was
+                        fresh = was if any(isinstance(a, ast.Name) and a.id == param for a in value.args) else True
+                elif isinstance(t, ast.Subscript) and isinstance(t.value, ast.Name) and t.value.id == param and not fresh:
+                    out.append(Mutation(s, f"{param}[…] = …"))
+                elif isinstance(t, ast.Attribute) and isinstance(t.value, ast.Name) and t.value.id == param and not fresh:
+                    out.append(Mutation(s, f"{param}.{t.attr} = …"))
+                elif isinstance(s, ast.AugAssign) and isinstance(t, ast.Name) and t.id == param and not fresh:
+                    out.append(Mutation(s, f"{param} {type(s.op).__name__}= … (in-place for mutable objects)"))
+            return fresh
+        if isinstance(s, ast.Delete):
+            for t in s.targets:
+                if isinstance(t, ast.Subscript) and isinstance(t.value, ast.Name) and t.value.id == param and not fresh:
+                    out.append(Mutation(s, f"del {param}[…]"))
+            return fresh
+        if isinstance(s, ast.If):
+            expr_mutations(s.test, fresh)
+            a = block(s.body, fresh)
+            b = block(s.orelse, fresh)
+            from .cfg import always_exits
+            if always_exits(s.body):
+                return b
+            if s.orelse and always_exits(s.orelse):
+                return a
+            return a and b
+        if isinstance(s, (ast.For, ast.While)):
+            if isinstance(s, ast.For):
+                expr_mutations(s.iter, fresh)
+            else:
+                expr_mutations(s.test, fresh)
+            a = block(s.body, fresh)
+            block(s.orelse, fresh and a)
+            return fresh and a
+        if isinstance(s, ast.With):
+            for it in s.items:
+                expr_mutations(it.context_expr, fresh)
+            return block(s.body, fresh)
+        if isinstance(s, ast.Try):
+            a = block(s.body, fresh)
+            for h in s.handlers:
+                a = block(h.body, fresh) and a
+            a = block(s.orelse, a)
+            return block(s.finalbody, a)
+        if isinstance(s, (ast.FunctionDef, ast.AsyncFunctionDef, ast.ClassDef)):
+            return fresh
+        for ch in ast.iter_child_nodes(s):
+            if isinstance(ch, ast.expr):
+                expr_mutations(ch, fresh)
+        return fresh
+
+    block(fn.body, False)
+    return out
